@@ -37,6 +37,29 @@ func BackwardReach(v ssa.Value) map[ssa.Value]bool {
 			return
 		}
 		seen[x] = true
+		// a callee may store any of its inputs into memory reachable from a pointer-like argument
+		// (e.g. f(destMap, src) fills destMap from src): inputs of calls x is passed to flow into x
+		if pointerLike(x.Type()) {
+			if refs := x.Referrers(); refs != nil {
+				for _, r := range *refs {
+					cc := CallOf(r)
+					if cc == nil {
+						continue
+					}
+					if _, isB := cc.Value.(*ssa.Builtin); isB {
+						continue
+					}
+					if cc.IsInvoke() && cc.Value != x {
+						visit(cc.Value)
+					}
+					for _, a := range cc.Args {
+						if a != x {
+							visit(a)
+						}
+					}
+				}
+			}
+		}
 		switch t := x.(type) {
 		case *ssa.Phi:
 			for _, e := range t.Edges {
